@@ -200,9 +200,14 @@ class DBHandler:
                 try:
                     # A failed write is repeated in place: putting the query back into the queue
                     # would store it behind the rows of later messages.
+                    # A query that was executed but could not be committed yet is still part of the
+                    # open transaction: only the commit is repeated, executing it again would store it twice.
+                    executed = False
                     while True:
                         try:
-                            await self.connection.execute(query, query_parameter)
+                            if not executed:
+                                await self.connection.execute(query, query_parameter)
+                                executed = True
                             await self.connection.commit()
                             break
                         except aiosqlite.OperationalError:
